@@ -186,6 +186,43 @@ theorem C01_accepted_instance_executor_refines (i : Inst) (sizes : List Nat) {Va
       = Rex.Dataflow.run (dfGraph (xWins i) step) (xTrace i).flatten (fun _ => none) :=
   exec_instance_refines i sizes step hx hs
 
+/-- **Compiled run = any other valid evaluation of the recorded graph** (in particular the asynchronous one). `U` is the
+set of vertices of the recorded graph; window entries without a message and the "previous step" of a first step are
+dependencies on vertices outside `U`, left at the initial environment by every order. If the executor's trace and another
+order are both valid for the graph (`ValidIn`: no vertex twice, existing dependencies strictly earlier), every vertex
+both execute gets the same payload from the compiled executor as from that other evaluation. -/
+theorem C01_compiled_executor_agrees_with_any_valid_order {Val : Type} (winsOf : Wins) (step : Step Val) (B : List Nat)
+    (Tr : List (List Vtx)) (U : Vtx → Prop) (other : List Vtx)
+    (hok : traceOk true (B.map Ring.init) (Tr.map (genOfV winsOf)) = true)
+    (hpos : ∀ v ∈ Tr.flatten, 0 ≤ v.seq)
+    (hsame : ∀ vs ∈ Tr, ∀ v ∈ vs, ∀ d ∈ depsOfV winsOf v, d ∉ vs)
+    (hkinds : ∀ vs ∈ Tr, ∀ v ∈ vs, ∀ w ∈ vs, w.kind = v.kind → w = v)
+    (hseq : ∀ pre vs post, Tr = pre ++ vs :: post → ∀ v ∈ vs, v.seq = ((cnt v.kind pre : Nat) : Int))
+    (hvc : Rex.Dataflow.ValidIn (dfGraph winsOf step) U Tr.flatten)
+    (hvo : Rex.Dataflow.ValidIn (dfGraph winsOf step) U other) :
+    ∀ v, v ∈ Tr.flatten → v ∈ other →
+      (exec winsOf step (initX B) Tr).env v = Rex.Dataflow.run (dfGraph winsOf step) other (fun _ => none) v := by
+  intro v hv1 hv2
+  rw [exec_refines_dataflow winsOf step B Tr hok hvc.1 hpos hsame hkinds hseq]
+  exact Rex.Dataflow.order_independent_in (dfGraph winsOf step) U Tr.flatten other (fun _ => none) hvc hvo v hv1 hv2
+
+/-- non-vacuity of `ValidIn` with a non-existent dependency: vertex 1 depends on 0 and on 7, which does not exist -/
+example : Rex.Dataflow.ValidIn (⟨fun v => if v = 1 then [0, 7] else [], fun _ l => l.sum, 0⟩ : Rex.Dataflow.Graph Nat Nat)
+    (fun v => v < 2) [0, 1] := by
+  refine ⟨by decide, by decide, ?_⟩
+  intro pre v post h d hd
+  rcases pre with _ | ⟨a, _ | ⟨b, pre⟩⟩
+  · simp only [List.nil_append, List.cons.injEq] at h
+    obtain ⟨rfl, _⟩ := h
+    simp at hd
+  · simp only [List.cons_append, List.nil_append, List.cons.injEq] at h
+    obtain ⟨rfl, rfl, _⟩ := h
+    simp at hd
+    rcases hd with rfl | rfl
+    · left; simp
+    · right; decide
+  · simp at h
+
 /-- non-vacuity: producer 1 (two steps) feeds supervisor 0 through a window of two; the executor's value for the
 supervisor's step is the step function of its (empty) carried state and the two producer outputs -/
 example :
